@@ -54,8 +54,10 @@ Theorem C15_release_frees_all :
   let c := effective r in
   let p := run repaired c p0 ops in
   let p' := fst (step repaired c p (ORelease k)) in
-  blocks_of p' k = [] /  forall b, In b (blocks_of p k) ->
-    (forall k', ~ In b (blocks_of p' k')) /    (forall k', limit_reached c p' k' = false ->
+  blocks_of p' k = [] /\
+  forall b, In b (blocks_of p k) ->
+    (forall k', ~ In b (blocks_of p' k')) /\
+    (forall k', limit_reached c p' k' = false ->
                 (c_paired c = true -> forall b', In b' (blocks_of p' k') -> b_ip b' = b_ip b) ->
                 exists p'', alloc_obs c p' k' b = Some p'').
 Proof. exact release_frees_all. Qed.
